@@ -28,7 +28,8 @@ def model_check(model, workers=8, timeout=1500, cfg="MC_check.cfg"):
 
 def gen_edges(model, workers=8, timeout=1500):
     """every transition of the model with a shortest behaviour reaching it"""
-    rc, out, dt = run_tlc(model + ".tla", "MC_gen.cfg", workers=workers, timeout=timeout, heap="8g")
+    # one worker: TLC loses PrintT lines when several workers print concurrently
+    rc, out, dt = run_tlc(model + ".tla", "MC_gen.cfg", workers=1, timeout=timeout, heap="8g")
     ok = "Model checking completed. No error has been found." in out
     cfgs = parse_tagged(out, "CFG")
     edges = parse_tagged(out, "EDGE")
